@@ -125,8 +125,9 @@ fn build(op: &Op) -> WorldRt {
             let out = Arc::new(callbag::from_iter(Xs(Arc::new(vec![]), true)));
             probe_world(out, rec_i64())
         },
-        Op::Interval(ms) => {
-            let out = Arc::new(callbag::interval(Duration::from_millis(*ms), MockNursery));
+        Op::Interval(us) => {
+            // the parameter is the period in MICROseconds (sub-millisecond periods are periods too)
+            let out = Arc::new(callbag::interval(Duration::from_micros(*us), MockNursery));
             probe_world(out, rec_usize())
         },
         Op::Map | Op::Filter(_) | Op::Scan(_) | Op::Take(_) | Op::Skip(_) | Op::Comp(..) => {
